@@ -288,6 +288,7 @@ func TestVerifC02(t *testing.T) {
 	rep.Set("configurations", int64(len(cfgs)))
 	c02BoundaryWalk(rep, seed)
 	c02Faults(rep, seed)
+	c02TwoGroups(rep, seed)
 }
 
 // c02BoundaryWalk: scripted boundary cases with the default window of 100 (not enumerated; stated in the evidence).
@@ -425,5 +426,109 @@ func c02Faults(rep *vrep.Report, seed int64) {
 			}
 		}
 		rep.Sample(map[string]interface{}{"part": "one storage fault, then retry", "batched": batched, "window": cfg.W})
+	}
+}
+
+// c02TwoGroups: one sender device known to the receiver in two groups (the account group and a contact group of a
+// multi-device account share the device key, and both chains start at counter 0). Explicit-state BFS over register /
+// open in either group: each group's ratchet follows the reference on its own, whatever happens in the other.
+func c02TwoGroups(rep *vrep.Report, seed int64) {
+	ctx := context.Background()
+	for w := 1; w <= 2; w++ {
+		const n = 3
+		mk := func(a, d string) *party { return newParty(seed, a, d, w, 2, false) }
+		R0, S := mk("A", "2"), mk("A", "1")
+		gAcc, _, err := S.st.GetGroupForAccount()
+		must(err)
+		gAB, err := S.st.GetGroupForContact(mk("B", "1").accountPub())
+		must(err)
+		type lane struct {
+			g    *protocoltypes.Group
+			ann  []byte
+			envs [][]byte
+			pay  [][]byte
+		}
+		var lanes []*lane
+		for _, g := range []*protocoltypes.Group{gAcc, gAB} {
+			_ = R0.announce(g, R0.md(g).Member())
+			l := &lane{g: g, ann: S.announce(g, R0.md(g).Member())}
+			for i := 1; i <= n; i++ {
+				pl := []byte(fmt.Sprintf("two-groups-%x-%d", g.PublicKey[:2], i))
+				l.pay = append(l.pay, pl)
+				l.envs = append(l.envs, S.seal(g, pl))
+			}
+			lanes = append(lanes, l)
+		}
+		type ref struct {
+			reg    bool
+			opened map[int]bool
+		}
+		type node struct {
+			ds   *memDS
+			refs [2]ref
+			hist []string
+		}
+		cloneRefs := func(r [2]ref) [2]ref {
+			var o [2]ref
+			for i := range r {
+				o[i] = ref{r[i].reg, map[int]bool{}}
+				for k := range r[i].opened {
+					o[i].opened[k] = true
+				}
+			}
+			return o
+		}
+		init := node{ds: R0.ds, refs: [2]ref{{false, map[int]bool{}}, {false, map[int]bool{}}}}
+		seen := map[string]bool{init.ds.dump(): true}
+		frontier := []node{init}
+		var states, transitions int64 = 1, 0
+		for len(frontier) > 0 {
+			if rep.NViolations() > 0 {
+				rep.NotExhaustive("exploration stopped after the first violations")
+				break
+			}
+			nd := frontier[0]
+			frontier = frontier[1:]
+			for li, l := range lanes {
+				for k := 0; k <= n; k++ {
+					ds := nd.ds.clone()
+					R := R0.onDS(ds)
+					refs := cloneRefs(nd.refs)
+					op := fmt.Sprintf("open%d(%d)", li, k)
+					transitions++
+					if k == 0 {
+						op = fmt.Sprintf("reg%d", li)
+						if err := R.st.RegisterChainKey(ctx, l.g, S.md(l.g).Device(), l.ann); err != nil {
+							rep.Violation("C02/register-error", fmt.Sprintf("two groups, window %d, after %v: %s: %v", w, nd.hist, op, err), map[string]interface{}{"window": w, "history": append(append([]string{}, nd.hist...), op)})
+						}
+						refs[li].reg = true
+					} else {
+						r := R.open(l.g, l.envs[k-1])
+						cur := nd.refs[li]
+						must := cur.reg && (cur.opened[k] || k <= w+len(cur.opened))
+						rep.Eval(fmt.Sprintf("two-groups/open/must=%v/ok=%v", must, r.ok))
+						if must && !r.ok {
+							rep.Violation("C02/not-openable", fmt.Sprintf("two groups sharing the sender's device key, window %d, after %v: %s refused although the reference of that group calls it openable: %s", w, nd.hist, op, r.err), map[string]interface{}{"window": w, "history": append(append([]string{}, nd.hist...), op)})
+						}
+						if r.ok && (!bytes.Equal(r.payload, l.pay[k-1]) || r.counter != uint64(k)) {
+							rep.Violation("C02/wrong-content", fmt.Sprintf("two groups, window %d, after %v: %s opened to %q counter %d", w, nd.hist, op, r.payload, r.counter), map[string]interface{}{"window": w, "history": append(append([]string{}, nd.hist...), op)})
+						}
+						if r.ok {
+							refs[li].opened[k] = true
+						}
+					}
+					key := ds.dump()
+					if seen[key] {
+						continue
+					}
+					seen[key] = true
+					states++
+					frontier = append(frontier, node{ds: ds, refs: refs, hist: append(append([]string{}, nd.hist...), op)})
+				}
+			}
+		}
+		rep.AddStates(states)
+		rep.AddTransitions(transitions)
+		rep.Sample(map[string]interface{}{"part": "one sender device in two groups", "window": w, "messages_per_group": n, "states": states, "transitions": transitions})
 	}
 }
